@@ -94,6 +94,23 @@ def _child(unit: dict) -> dict:
         for x in order:
             es.add(EventSet(list(x)))
         rec = {"i": i, "n_sets": len(f)}
+        if unit.get("prelude"):
+            # history inside one process: the same family with a count of 2
+            # on one event type per set is inferred first (its result is
+            # discarded); the answer for the plain family must not depend on
+            # what the process computed before
+            try:
+                pes = set()
+                for x in order:
+                    xs = sorted(x)
+                    pes.add(EventSet(xs + [xs[0]]))
+                calculate_logic_gates(pes)
+            except Exception:
+                pass
+            sm.uuid_rng = random.Random(
+                core.derive(unit["uuid_seed"], "tree", i))
+            sm.clock_calls = 0
+            sm.uuid_calls = 0
         try:
             pt = calculate_logic_gates(es)
             g = gate_sem.pfam(pt)
